@@ -252,8 +252,8 @@ pub fn spec() -> PropSpec {
             "RefAmf0 is trusted as the transcription of the AMF0 specification; it self-checks enc/dec inversion on every decoder-direction case",
         ],
         checks: vec![
-            PropCheck::new("encoder", |_| gen::amf_values(AmfCfg::LIB, 6).prop_map(|values| Case { values }).boxed(), 15_000, 600_000, eval_encoder),
-            PropCheck::new("decoder", |_| gen::amf_values(AmfCfg::WIRE, 6).prop_map(|values| Case { values }).boxed(), 15_000, 600_000, eval_decoder),
+            PropCheck::new("encoder", |_| gen::amf_values(AmfCfg::LIB, 6).prop_map(|values| Case { values }).boxed(), 100_000, 3_000_000, eval_encoder),
+            PropCheck::new("decoder", |_| gen::amf_values(AmfCfg::WIRE, 6).prop_map(|values| Case { values }).boxed(), 100_000, 3_000_000, eval_decoder),
             EnumCheck::new("markers", true, |_| {
                 let mut v = Vec::new();
                 for marker in 0..=255u8 {
@@ -265,7 +265,7 @@ pub fn spec() -> PropSpec {
                 }
                 v
             }, eval_marker),
-            PropCheck::new("truncation", |_| (gen::amf_values(AmfCfg::WIRE, 5), proptest::collection::vec(any::<u16>(), 24)).prop_map(|(values, cuts)| TruncCase { values, cuts }).boxed(), 4_000, 150_000, eval_trunc),
+            PropCheck::new("truncation", |_| (gen::amf_values(AmfCfg::WIRE, 5), proptest::collection::vec(any::<u16>(), 24)).prop_map(|(values, cuts)| TruncCase { values, cuts }).boxed(), 20_000, 600_000, eval_trunc),
         ],
     }
 }
